@@ -79,6 +79,14 @@ for p in sorted(root.glob("*.py")):
                 k = -1 if any(isinstance(a, ast.Starred) for a in c.args) else len(c.args)
                 mins[nm] = min(mins.get(nm, 99), k)
 out += [f"pos:{defs[nm][0]}={k}" for nm, k in mins.items() if 1 <= k < 99]
+# value fingerprints of the module-level constants: a constant that was only renamed is recognised by its value
+import hashlib
+for p in sorted(root.glob("*.py")):
+    tree = ast.parse(p.read_text())
+    m = p.stem
+    for st in tree.body:
+        if isinstance(st, ast.Assign) and len(st.targets) == 1 and isinstance(st.targets[0], ast.Name):
+            out.append(f"cval:{m}.{st.targets[0].id}=" + hashlib.sha1(ast.dump(st.value).encode()).hexdigest()[:16] + ":" + type(st.value).__name__)
 dst = Path(__file__).resolve().parents[1] / "hvsa" / "baseline_functions.txt"
 dst.write_text("# functions of the pinned hvsrpy tree (names only); see hvsa/normalize.py\n" + "\n".join(sorted(set(out))) + "\n")
 print(len(out), "functions ->", dst)
